@@ -124,6 +124,17 @@ func scenario(id string, seed uint64) runner.Result {
 	point := ""
 	if cfg.Client.SoftCancel && r.Intn(2) == 0 {
 		point = payload.Pick(r, cancelPoints)
+		// the points after the metadata write exist only for RPCs that carry metadata
+		if strings.HasSuffix(point, ".afterMeta") {
+			for _, sc := range scripts {
+				if sc.Unary == strings.HasPrefix(point, "conn.invoke.") {
+					if sc.Meta == nil {
+						sc.Meta = map[string]string{"rpc": fmt.Sprint(sc.Tag)}
+					}
+					break
+				}
+			}
+		}
 	}
 	x := prog.New(cfg, scripts)
 	defer x.Rig.Teardown()
@@ -253,6 +264,112 @@ func queuedCancel(id string, seed uint64) runner.Result {
 	return runner.Violation(id, "probe-failed:"+verdict, "connection not closed but the probe failed with "+verdict+"\n"+hist)
 }
 
+// writeInFlight: the peer ends the RPC while a write of this side (an explicit flush under
+// ManualFlush, a send's own flush, a half-close) is parked inside the transport after its bytes were
+// delivered; the write is then released and this side does the least an application may do afterwards.
+func writeInFlight(id string, seed uint64) runner.Result {
+	r := &payload.SplitMix{S: seed}
+	manual := r.Intn(2) == 0
+	cfg := prog.GenConfig(r, manual)
+	if r.Intn(4) != 0 {
+		cfg.Client.SoftCancel, cfg.Server.SoftCancel = true, true
+	}
+	cfg.Net.Cap = -1
+	// the writer buffer is large enough for the parked write to be the one the script names
+	cfg.Client.WriterBufferSize, cfg.Server.WriterBufferSize = 1<<20, 1<<20
+	size := r.Intn(600)
+	s := &prog.Script{Tag: 1}
+	serverSide := r.Intn(3) == 0
+	var gate *simnet.Gate
+	var what string
+	after := payload.Pick(r, []string{"close", "nothing", "recv"})
+	tail := func() []prog.Act {
+		switch after {
+		case "close":
+			return []prog.Act{{Op: 'c'}}
+		case "recv":
+			return []prog.Act{{Op: 'R'}}
+		}
+		return nil
+	}
+	if !serverSide {
+		switch {
+		case manual:
+			what = "explicit RawFlush"
+			s.Client = append([]prog.Act{{Op: 's', Size: size}, {Op: 'f'}}, tail()...)
+		case r.Intn(2) == 0:
+			what = "MsgSend"
+			s.Client = append([]prog.Act{{Op: 's', Size: size}}, tail()...)
+		default:
+			what = "CloseSend"
+			s.Client = append([]prog.Act{{Op: 'h'}}, tail()...)
+		}
+		s.NoClose = after == "nothing"
+		switch r.Intn(3) {
+		case 0:
+			s.Ret = &prog.ErrSpec{Msg: "handler error for rpc 1", Code: 3}
+		case 1:
+			s.Handler = []prog.Act{{Op: 'r'}}
+			s.Ret = &prog.ErrSpec{Msg: "handler error for rpc 1"}
+		}
+	} else {
+		what = "handler's MsgSend"
+		if manual {
+			what = "handler's RawFlush"
+			s.Handler = []prog.Act{{Op: 's', Size: size}, {Op: 'f'}, {Op: 'R'}}
+		} else {
+			s.Handler = []prog.Act{{Op: 's', Size: size}, {Op: 'R'}}
+		}
+		s.Client = []prog.Act{{Op: 'h'}, {Op: 'q'}, {Op: payload.Pick(r, []byte{'c', 'x'})}}
+	}
+	x := prog.New(cfg, []*prog.Script{s})
+	defer x.Rig.Teardown()
+	if serverSide {
+		gate = x.Rig.Pair.B.GateWriteIdx(0, simnet.After)
+	} else {
+		gate = x.Rig.Pair.A.GateWriteIdx(0, simnet.After)
+	}
+	x.Start([][]*prog.Script{{s}})
+	st, _ := census.QuiesceOr(gate.Reached(), rig.Watchdog)
+	parked := st == "ready"
+	census.Quiesce(rig.Watchdog) // the peer ends the RPC while the write is still inside the transport
+	gate.Release()
+	hist := fmt.Sprintf("%s | write-in-flight: %s parked in the transport after delivery (parked=%v) while the peer ended the RPC; afterwards: %s | %s", cfg.Desc, what, parked, after, describe(s))
+	if st := x.WaitClients(); st != "ready" {
+		return runner.Inconcl(id, "a workload call never returned: "+hist)
+	}
+	census.Quiesce(rig.Watchdog)
+	for _, l := range x.Logs() {
+		if ran, done := l.HandlerState(); ran && !done {
+			return runner.Inconcl(id, "a handler never returned: "+hist)
+		}
+	}
+	if after != "close" && !serverSide {
+		// the application never closed its stream: the RPC has not ended on the client side unless
+		// the stream was terminated by the peer (error) — only then is the probe owed an answer
+		if l := x.Log(1); l.Stream != nil {
+			if ts, ok := l.Stream.(interface{ IsTerminated() bool }); ok && !ts.IsTerminated() {
+				return runner.Hold(id, hist, false)
+			}
+		}
+	}
+	verdict, _ := x.Probe(1000)
+	_, snap := census.Quiesce(rig.Watchdog)
+	closed := rig.IsClosed(x.Rig.Conn.Closed())
+	res := runner.Hold(id, hist, parked)
+	res.Events = 2
+	res.Stats = map[string]int64{"probe_" + strings.SplitN(verdict, ":", 2)[0]: 1}
+	switch {
+	case verdict == "ok" || closed:
+		return res
+	case verdict == "watchdog":
+		return runner.Inconcl(id, "watchdog: "+hist)
+	case verdict == "blocked":
+		return runner.Violation(id, "wedge:write-in-flight-while-peer-ended-the-rpc", "connection looks healthy but the probe RPC is stuck at quiescence\n"+hist+"\n"+census.Dump(census.InDRPC(snap)))
+	}
+	return runner.Violation(id, "probe-failed:"+verdict, "connection not closed but the probe failed with "+verdict+"\n"+hist)
+}
+
 func gen(tier string, seed uint64) []runner.Scenario {
 	n := 600
 	if tier == "thorough" {
@@ -263,6 +380,10 @@ func gen(tier string, seed uint64) []runner.Scenario {
 		i := i
 		id := fmt.Sprintf("prog/%d", i)
 		out = append(out, runner.Scenario{ID: id, Run: func() runner.Result { return scenario(id, payload.Hash(seed, 0xC06, uint64(i))) }})
+		if i%4 == 0 {
+			id3 := fmt.Sprintf("write-in-flight/%d", i)
+			out = append(out, runner.Scenario{ID: id3, Run: func() runner.Result { return writeInFlight(id3, payload.Hash(seed, 0xC062, uint64(i))) }})
+		}
 		if i%6 == 0 {
 			id2 := fmt.Sprintf("queued-cancel/%d", i)
 			out = append(out, runner.Scenario{ID: id2, Run: func() runner.Result { return queuedCancel(id2, payload.Hash(seed, 0xC061, uint64(i))) }})
